@@ -526,7 +526,9 @@ carquet_status_t carquet_page_writer_finalize(
     }
 
     if (build_status == CARQUET_OK) {
-        if (writer->type == CARQUET_PHYSICAL_BOOLEAN) {
+        if (writer->type == CARQUET_PHYSICAL_BOOLEAN && writer->values_buffer.size == 0) {
+            /* every row of the page is null: no values to pack */
+        } else if (writer->type == CARQUET_PHYSICAL_BOOLEAN) {
             build_status = carquet_encode_plain_boolean(writer->values_buffer.data,
                                                          (int64_t)writer->values_buffer.size,
                                                          &uncompressed);
